@@ -98,6 +98,7 @@ def fnctx(repo: Repo, cls: Optional[str], name: str, module: Optional[str] = Non
         return FnCtx(mod, c, fn)
     nz = Normalizer(make_resolver(repo, mod, also=set(also)), cls=c, keep=set(keep), depth=depth, lower_comps=lower_comps)
     nz.records = S._namedtuples_of(mod)
+    nz.module_consts = mod.consts
     try:
         fn2 = nz.run(fn)
     except RecursionError:
@@ -282,6 +283,12 @@ class SCtx:
         here = tuple(self.conds(nid))
         if isinstance(expr, ast.Name) and depth > 0:
             defs = self.cx.rd.reaching(nid, expr.id)
+            if len(defs) > 1:
+                # definitions that reach the use along a flag-feasible path only (`found = False; v = None` does not reach `if found: use(v)`)
+                R = self.cfg.refined
+                feas = [d for d in defs if d.kind == "param" or R.path_avoiding(d.nid, nid, [o.nid for o in defs if o is not d and o.kind != "param"])]
+                if feas:
+                    defs = feas
             if defs and all(d.kind in ("assign", "param") and d.strong for d in defs):
                 out = []
                 excl = frozenset(excl) | frozenset(self.sym._known_not(expr.id, nid))
@@ -347,6 +354,7 @@ def sctx(repo: Repo, cls: Optional[str], name: str, module: Optional[str] = None
     nz = Normalizer(make_resolver(repo, mod, private_only=not public, also=set(also)), cls=c, keep=keep, depth=depth,
                     lower_comps=lower_comps)
     nz.records = S._namedtuples_of(mod)
+    nz.module_consts = mod.consts
     try:
         fn2 = nz.run(fn)
     except RecursionError:
